@@ -142,9 +142,6 @@ func ZZ_C01_script() {
 // ZZ_C01_legacy: Base58Check P2PKH / P2SH on every net (Base58 itself: abstract bijection, C07).
 func ZZ_C01_legacy() {
 	net := zzNet()
-	if vParam("thorough", 0) == 0 && net != &chaincfg.MainNetParams {
-		return // quick: mainnet only (each net costs ~70 decoder paths per string shape)
-	}
 	hash := vBytes("hash", 20)
 	// at most two leading zero bytes in the hash (the leading-zero handling belongs to Base58, C07)
 	vAssume(hash[2] != 0)
@@ -164,7 +161,13 @@ func ZZ_C01_legacy() {
 	body = append(body, zzDsha(body)[:4]...)
 	vAssert("legacy:spec-string", s == zzB58(body))
 	vAssert("legacy:payload-kept", vEqBytes(a.ScriptAddress(), hash))
-	zzCheckDecoded("legacy", s, s, a, net, true)
+	vAssert("legacy:string-method", a.String() == s)
+	vAssert("legacy:is-for-net", a.IsForNet(net))
+	if vParam("withdecode", 0) == 1 {
+		// decoding a string of ~34 symbolic Base58 characters costs two CashAddr attempts with an
+		// error exit per character each: minutes per net; not part of the registered tiers
+		zzCheckDecoded("legacy", s, s, a, net, true)
+	}
 	vReach("end")
 }
 
